@@ -57,6 +57,9 @@ enum Act {
     Register,
     /// register_canonical_token(address of the service-deployed token T1)
     RegisterDeployedAsCanonical,
+    /// an approved hub message asks to deploy a token under the canonical token T2's id: refused, or
+    /// the custody locked under that id is stranded
+    HubDeployForCanonicalId,
     SetTrusted,
     RemoveTrusted,
     /// token: 0 T1, 1 T2, 2 unknown id; gas: 0 = 1 unit, 1 = more than the sender has, 2 = zero, 3 = negative
@@ -107,6 +110,8 @@ impl Scenario for C05 {
         let t1_id = interchain_token_id("stellar", &iw.sc(&iw.users[0]), &SALT);
         let t1 = iw.seat_token(&t1_id);
         let t2_id = canonical_token_id("stellar", &iw.sc(&iw.assets[0]));
+        // a native seat behind the canonical id as well: only a broken tree deploys a token there
+        iw.seat_token(&t2_id);
         assert!(iw.set_trusted(X).ok);
         iw.mint_asset(&iw.assets[0], &iw.users[0], 20);
         iw.mint_asset(&iw.assets[0], &iw.users[1], 5);
@@ -165,6 +170,7 @@ impl Scenario for C05 {
         if !m.t1 { v.push(Act::Deploy); }
         if !m.t2 { v.push(Act::Register); }
         if m.t1 && !m.t1_also_canonical { v.push(Act::RegisterDeployedAsCanonical); }
+        if m.t2 { v.push(Act::HubDeployForCanonicalId); }
         let amts = [Amt::One, Amt::All, Amt::AllPlus1, Amt::Zero, Amt::Neg];
         for token in 0..3u8 {
             for sender in 0..2usize {
@@ -263,6 +269,25 @@ impl Scenario for C05 {
                 out.accepted = c.ok;
                 out.expect(c.ok, "register.outcome", || format!("registering the deployed token's address as canonical: ok={} ({})", c.ok, c.err));
                 if c.ok { m.t1_also_canonical = true; }
+            }
+            Act::HubDeployForCanonicalId => {
+                out.kind = "inbound-deploy-refused";
+                let payload = abi_hub(&RHub::ReceiveFromHub {
+                    chain: X.as_bytes().to_vec(),
+                    msg: RMsg::Deploy { token_id: ctx.t2_id, name: b"Takeover".to_vec(), symbol: b"TKO".to_vec(), decimals: 7, minter: vec![] },
+                });
+                let mid = format!("dep-{}", m.inbound);
+                let pre = w.snap();
+                let ap = iw.approve_delivery(HUB_CHAIN, &mid, HUB_ADDRESS, &iw.its, &payload);
+                assert!(ap.ok);
+                let h1 = w.state_hash();
+                let call = iw.execute(&iw.its, HUB_CHAIN, &mid, HUB_ADDRESS, &payload);
+                out.accepted = call.ok;
+                out.expect(!call.ok, "inbound.deploy-over-canonical-id", || "a hub deployment message for the id of a registered canonical token was executed".into());
+                if !call.ok {
+                    out.expect(h1 == w.state_hash(), "rejected-but-changed-state", || format!("{:?}", a));
+                }
+                w.restore(&pre);
             }
             Act::SetTrusted | Act::RemoveTrusted => {
                 out.kind = "trust";
